@@ -498,10 +498,11 @@ class ApplyLinks(Processor):
         # we do this here becuase that's more efficent
         if self.nodes_to_remove:
             molecule.remove_nodes_from(self.nodes_to_remove)
-            # make sure the residue graph is updated; this takes care that
-            # nodes are also removed from the fragment graphs in the
-            # meta_molecule.nodes['graph'] attribute
-            meta_molecule.relabel_and_redo_res_graph(mapping={})
+            # the removed atoms are also taken out of the fragment graphs of the
+            # residues; the residue graph itself is kept, because rebuilding it from
+            # the atoms would drop the edges between residues that no link joins
+            for res_node in meta_molecule.nodes:
+                meta_molecule.nodes[res_node]["graph"].remove_nodes_from(self.nodes_to_remove)
         # now we add all interactions but not the ones that contain the removed
         # nodes
         for inter_type in self.applied_links:
